@@ -29,3 +29,5 @@ def run(ctx):
     S.r03_8_whole_node(ctx, 'R16.5')
     H.r14_1_scalar_table(ctx, 'R16.6')
     H.r14_9_get_value_text(ctx, 'R16.7', dump_side=False)
+    from . import round3 as R3
+    R3.r16_8_conversion_errors(ctx, 'R16.8')
